@@ -27,6 +27,8 @@ pub use collections::{VecBuilder, IndexedResult, UniqueVector};
 pub use reference::{ObjectRef, ObjRef, Ref};
 pub use captures::Captures;
 pub use allocator::{Allocator, NO_GC};
+#[cfg(feature = "verif")]
+pub use allocator::VerifStats;
 pub use chunk::Chunk;
 pub use hooks::*;
 
